@@ -166,4 +166,13 @@ theorem e2e_apply_v3_code (wire key padBytes : Bytes) (pid : Nat) (hp : pid < 40
       Spec.V3.decodeEncrypted key pkt = some ⟨6, pid, wire⟩ :=
   C07.write_data_code key wire padBytes pid hp hpl hsz
 
+/-- **C01 (refresh) about the translated code, last step.** The attributes `e2e_refresh_v3_code` / `e2e_refresh_v2_code` obtain from
+    the translated `_parse` (`StateAttrs.ofModel st`), handed to the translated `StateResponse` arm of `_update_state` on a FRESH
+    client (constructor defaults: custom fan speeds supported), are the attributes of `({} : Dev).updateFromState st` - the record
+    whose fields those theorems equate with the device's state. -/
+theorem refresh_update_fresh_code (st : StateResp) :
+    CodecEq.updateOfAttrs true (Generated.Codec.StateAttrs.ofModel st) =
+      Generated.Codec.UpdAttrs.ofDev (({} : Dev).updateFromState st) := by
+  rw [CodecEq.updateOfAttrs_ofModel]; rfl
+
 end Msmart.Props.C01
